@@ -1,6 +1,7 @@
 package main
 
 import (
+	"go/ast"
 	"encoding/json"
 	"flag"
 	"fmt"
@@ -75,6 +76,36 @@ func main() {
 			fmt.Println(string(b))
 		}
 		_ = w
+	case "loopkeys":
+		// prints, for every contract loop, the header text of the loop it is bound to (used to add `match` keys)
+		e, err := newEngine("", "")
+		if err != nil {
+			fmt.Fprintln(os.Stderr, err)
+			os.Exit(3)
+		}
+		for _, k := range sortedKeys(e.Contracts.Funcs) {
+			f := e.Contracts.Funcs[k]
+			if f.Extern || f.IsLemma || len(f.Loops) == 0 {
+				continue
+			}
+			fi := e.Funcs[k]
+			if fi == nil || fi.Decl == nil || fi.Decl.Body == nil {
+				continue
+			}
+			n := 0
+			ast.Inspect(fi.Decl.Body, func(nd ast.Node) bool {
+				switch s := nd.(type) {
+				case *ast.ForStmt, *ast.RangeStmt:
+					n++
+					if _, ok := f.Loops[n]; ok {
+						fmt.Printf("%s\t%d\t%s\n", k, n, loopHeader(e, s.(ast.Stmt)))
+					}
+				case *ast.FuncLit:
+					return false
+				}
+				return true
+			})
+		}
 	case "selftest":
 		os.Exit(cmdSelftest(os.Args[2:]))
 	default:
